@@ -103,6 +103,18 @@ CHECKS.update({
         ref="4/C13"),
 })
 
+CHECKS.update({
+    "C02": dict(
+        technique="static analysis: type-directed trace coverage, who-may-write table for the register file, and guardflow - a forward may-analysis of guard protection (DNF protector sets) with backward liveness over MIR, interprocedural may-collect sets",
+        text="Decides three rooting clauses for every function: Traceable::trace visits every Gc-bearing field path reachable from "
+             "JsObject (71 obligations; dead types and one side-conditioned exemption aside); only set_reg and the frame swaps write "
+             "the register file; and no FRESH value (from a callee-returned Guarded or a local-guard allocation) is without a "
+             "live guard at a call that may collect while still in use. The ten guardflow hazards of the pinned tree were "
+             "reproduced as wrong results and repaired (fix: commit). Hazards needing a callback to unlink a heap-rooted object "
+             "are not decided.",
+        ref="4/C02"),
+})
+
 NOT_APPLICABLE = {
     "C04": "value equivalence with the TypeScript emit; no structural mechanism exists (DESIGN.md 4/C04)",
     "C09": "behaviour of a fixed-point loader over all graphs x schedules; structural parts are decided under C02/C19",
